@@ -113,6 +113,12 @@ Section Sat.
     destruct r1; injection H as <- _; auto.
   Qed.
 
+  Lemma sat_err_unspec {A} (m : M A) : sat R m -> sat R (err_unspec m).
+  Proof.
+    intros Hm st st' r H. unfold err_unspec in H. destruct (m st) as [st1 r1] eqn:E.
+    injection H as <- _. eapply Hm; eauto.
+  Qed.
+
   (* changes of the state that leave the frames alone *)
   Lemma sat_frames_same {A} (m : M A) :
     (forall st st' r, m st = (st', r) -> st_frames st' = st_frames st) -> sat R m.
@@ -339,6 +345,7 @@ Ltac use_ih :=
 Ltac sat_all :=
   repeat first
     [ use_ih
+    | apply sat_err_unspec
     | apply sat_b_len | apply sat_b_add | apply sat_b_del | apply sat_b_concat
     | apply sat_add_supers
     | apply sat_weaken, sat_add_supers
